@@ -81,6 +81,152 @@ def gen_set(rng, hid, tier, exhaust=False):
     return lines
 
 
+# ---------------------------------------------------------------------------------------------
+# client stream: the CONTENT-writing entry point PoolSet::alloc_str, reached the only way the
+# crate reaches it (Value::promote of a computed string stored into a variable / array element /
+# function local).  Strings of length slot-1 / slot / slot+1 for every class, several live
+# neighbours of the same class, every live string re-read after every store; the expectation is
+# computed here from plain string semantics (no model involved).
+
+def _pat(tagch, serial, n):
+    """n recognisable bytes: first byte identifies the variable, then a serial number, then a ramp."""
+    base = "%s%d" % (tagch, serial)
+    ramp = "abcdefghijklmnopqrstuvwxyzABCDEFGHIJKLMNOPQRSTUVWXYZ0123456789"
+    t = base
+    i = 0
+    while len(t) < n:
+        t += ramp[(i + serial) % len(ramp)]
+        i += 1
+    return t[:n]
+
+
+def gen_client(rng, cid, ssz, shape, sizes):
+    """-> (case id, source, expected printed strings).  shape: 'vars' | 'func' | 'array'."""
+    K = rng.randint(4, 6)
+    names = ["v%s" % "abcdef"[i] for i in range(K)]
+    tagch = "PQRSTU"
+    serial = [0]
+    expected = []
+    body = []
+    lens_below = [x for x in range(max(1, ssz - 7), ssz + 1)]
+    upper = [ssz + 1] if ssz + 1 <= 300 else []
+
+    def computed(i, L, nexpr, nval):
+        """an expression whose value has exactly L bytes and is built at run time"""
+        serial[0] += 1
+        if L <= len(nval):
+            L = len(nval) + 1
+        lit = _pat(tagch[i], serial[0], L - len(nval))
+        return '"%s" add to_string(%s)' % (lit, nexpr), lit + nval
+
+    def emit(nexpr, nval):
+        cur = {}
+        out = []
+        exp = []
+        ref = (lambda i: names[i]) if shape != "array" else (lambda i: "arr[%d]" % i)
+        if shape == "array":
+            items = []
+            for i in range(K):
+                e, v = computed(i, rng.choice(lens_below), nexpr, nval)
+                items.append(e)
+                cur[i] = v
+            out.append("make arr get [%s]" % ", ".join(items))
+        else:
+            for i in range(K):
+                e, v = computed(i, rng.choice(lens_below), nexpr, nval)
+                out.append("make %s get %s" % (names[i], e))
+                cur[i] = v
+        steps = []
+        for i in range(K):
+            steps += [(i, ssz - 1), (i, ssz)] + [(i, u) for u in upper]
+        # exact fit first for every variable (each lands in a recycled slot between live
+        # neighbours), then the shuffled rest, then exact fit again after the class moves
+        order = [(i, ssz) for i in range(K)]
+        rng.shuffle(steps)
+        order += steps + [(i, ssz) for i in reversed(range(K))]
+        for (i, L) in order:
+            e, v = computed(i, L, nexpr, nval)
+            out.append("%s get %s" % (ref(i), e))
+            cur[i] = v
+            for j in range(K):
+                out.append("shout(%s)" % ref(j))
+                exp.append(cur[j])
+        return out, exp
+
+    if shape == "func":
+        lines, e1 = emit("k", "7")
+        src = ["do work(k) start"] + ["    " + l for l in lines] + ["    return k", "end"]
+        src += ["make r get work(7)", "r get work(7)", "shout(r)"]
+        expected = e1 + e1 + ["\x00NUM7"]
+    else:
+        lines, e1 = emit("n", "1")
+        src = ["make n get 1"] + lines
+        expected = e1
+    return ("cl%d_%d_%s" % (cid, ssz, shape), "\n".join(src) + "\n", expected)
+
+
+def client_stream(env):
+    """Runs the client programs through the real pipeline (nsverif lang) and compares every
+    printed string with the expectation.  Returns (evaluations, failures, info)."""
+    import json
+    import langrun
+    t = json.load(open(os.path.join(common.BUILD, "tables.json")))
+    sizes = t["slot_sizes"]
+    rng = env.rng
+    cases = []
+    reps = 1 if env.tier == "quick" else 6
+    cid = 0
+    for _ in range(reps):
+        for ssz in sizes:
+            for shape in ("vars", "func", "array"):
+                cid += 1
+                cases.append(gen_client(rng, cid, ssz, shape, sizes))
+    cfgs = ["nn", "pf"] if env.tier == "quick" else ["nn", "pn", "nf", "pf"]
+    recs = langrun.run_impl(env, "c12client", [(c[0], c[1]) for c in cases], cfgs)
+    failures = []
+    stores = 0
+    for (cid_, src, exp) in cases:
+        stores += src.count(" get ")
+        r = recs.get(cid_) or {}
+        want = " ".join(("n:401c000000000000" if e == "\x00NUM7" else "s:" + e.encode().hex()) for e in exp)
+        for cfg in cfgs:
+            ending, vals = (r.get("runs") or {}).get(cfg, ("missing", ""))
+            if ending == "ok" and vals == want:
+                continue
+            got = vals.split()
+            w = want.split()
+            k = next((i for i in range(min(len(got), len(w))) if got[i] != w[i]), min(len(got), len(w)))
+            failures.append({
+                "key": "client:" + common.chash(src + cfg), "case": {"id": cid_, "source": src, "cfg": cfg},
+                "observed": "a live string read back differently after a store of another string (ending %s, first "
+                            "difference at printed value %d: got %s, expected %s)"
+                            % (ending, k, got[k] if k < len(got) else "<nothing>", w[k] if k < len(w) else "<nothing>"),
+                "expected_values": want})
+            break
+        if len(failures) >= 3:
+            break
+    return len(cases) * len(cfgs), failures, {"client_programs": len(cases), "client_configs": cfgs,
+                                                "client_stores_followed_by_full_reread": stores}
+
+
+def pool_api(env):
+    """pub / pub(crate) functions of pool.rs (regenerated by translator/gen_poolstr.py) and the
+    stream that exercises each one; an entry point nobody exercises is listed as such."""
+    import json
+    p = os.path.join(common.BUILD, "pool_api.json")
+    if not os.path.exists(p):
+        return {}
+    api = json.load(open(p))
+    how = {
+        "PoolSet::new": "pool-history (PS header)", "PoolSet::alloc": "pool-history (a)",
+        "PoolSet::dealloc": "pool-history (f)", "PoolSet::contains": "pool-history (c)",
+        "PoolSet::alloc_str": "client stream (computed strings through the interpreter) + C12_alloc_str_* over the regenerated body",
+        "PoolSet::arena": "accessor; client stream (promote reads it)",
+    }
+    return {"entry_points": {a["name"]: how.get(a["name"], "NOT EXERCISED") for a in api["pub"]},
+            "private_fns": api["all"], "alloc_str_extra_stores": api["alloc_str_extra_stores"]}
+
+
 def flags(lines):
     return sorted({w for l in (lines or []) for w in FLAGS if w in l})
 
@@ -216,6 +362,14 @@ def correspond(env, searching=False, model=True):
                         samples.append({"history": h, "impl_output": a})
             if failures:
                 break
+    client_info = {}
+    if not failures:
+        n_cl, cl_fail, client_info = client_stream(env)
+        evaluations += n_cl
+        failures += cl_fail
+        if not cl_fail:
+            nontrivial.add("client-stream:%d" % client_info["client_stores_followed_by_full_reread"])
+    client_info.update(pool_api(env))
     return {
         "evaluations": evaluations,
         "distinct_nontrivial": len(nontrivial),
@@ -223,12 +377,15 @@ def correspond(env, searching=False, model=True):
                 "0/8/9/128/129/160/161/256/257, exhaustion of a 512-slot class and refill, contains/size_class queries; size_class "
                 "swept exhaustively over 0..599); non-trivial = distinct history with at least one release followed by reuse; "
                 "returned addresses (relative), lengths, origin, the three counters and the arena offset compared with the extracted "
-                "model; overlap/clobber oracle on live buffers checked on the implementation after every op",
+                "model; overlap/clobber oracle on live buffers (full contents) checked on the implementation after every op; "
+                "client stream: programs storing computed strings of length slot-1/slot/slot+1 for each of the 20 classes into "
+                "4-6 neighbouring variables / function locals / array elements (PoolSet::alloc_str), all live strings re-read "
+                "after every store and compared with plain string semantics",
         "samples": samples,
         "failures": failures,
         "disagreements": disagreements,
         "extra": {"history_kinds": hist_kinds, "profiles": ["debug"] + (["release"] if env.tier == "thorough" else []),
-                  "exhaustive": False},
+                  "exhaustive": False, **client_info},
     }
 
 
@@ -236,6 +393,16 @@ def replay(env, payload):
     common.refresh_tables()
     common.build_nsmodel()
     case = payload.get("case") or (payload.get("disagreements") or [{}])[0]
+    inner = case.get("case") if isinstance(case.get("case"), dict) else case
+    if inner.get("source"):
+        import langrun
+        common.build_harness()
+        r = langrun.run_impl(env, "c12replay", [("r", inner["source"])], [inner["cfg"]]).get("r") or {}
+        ending, vals = (r.get("runs") or {}).get(inner["cfg"], ("missing", ""))
+        bad = not (ending == "ok" and vals == case.get("expected_values"))
+        print("ending %s; printed values %s the expectation" % (ending, "differ from" if bad else "equal"))
+        print("replay: %s" % ("still failing" if bad else "passes now"))
+        return 1 if bad else 0
     hist = case.get("history")
     if not hist:
         print("replay: no concrete history in this file (obligations: %s)" % payload.get("no_longer_checks"))
